@@ -32,7 +32,7 @@ use rustc_middle::ty::{self, Instance, Ty, TyCtxt, TypeVisitableExt, TypingEnv};
 use rustc_middle::util::Providers;
 use rustc_span::Span;
 
-struct Stash(Vec<(LocalDefId, Body<'static>)>);
+struct Stash(Vec<(LocalDefId, Body<'static>, Vec<Body<'static>>)>);
 unsafe impl Send for Stash {}
 static STASH: Mutex<Stash> = Mutex::new(Stash(Vec::new()));
 static EXT_ADTS: Mutex<Vec<DefId>> = Mutex::new(Vec::new());
@@ -46,9 +46,10 @@ fn my_mir_promoted<'tcx>(
     let res = (providers.queries.mir_promoted)(tcx, def);
     if tcx.crate_name(LOCAL_CRATE).as_str() == "ntex_mqtt" {
         let body: Body<'tcx> = res.0.borrow().clone();
-        // Safety: the body is only used inside after_analysis while tcx is alive.
+        // Safety: the bodies are only used inside after_analysis while tcx is alive.
         let body: Body<'static> = unsafe { std::mem::transmute(body) };
-        STASH.lock().unwrap().0.push((def, body));
+        let proms: Vec<Body<'static>> = res.1.borrow().iter().map(|b| unsafe { std::mem::transmute::<Body<'tcx>, Body<'static>>(b.clone()) }).collect();
+        STASH.lock().unwrap().0.push((def, body, proms));
     }
     res
 }
@@ -78,14 +79,20 @@ impl Callbacks for Cb {
         let mut s = String::with_capacity(64 << 20);
         s.push_str("{\"bodies\":[\n");
         let mut first = true;
-        for (def, body) in stash.iter() {
+        for (def, body, proms) in stash.iter() {
             let body: &Body<'tcx> = unsafe { std::mem::transmute(body) };
             if !first {
                 s.push_str(",\n");
             }
             first = false;
-            let mut cx = Cx { tcx, body, env: TypingEnv::post_analysis(tcx, def.to_def_id()), s: &mut s };
+            let mut cx = Cx { tcx, body, env: TypingEnv::post_analysis(tcx, def.to_def_id()), s: &mut s, promoted: None };
             cx.body(*def);
+            for (pi, pb) in proms.iter().enumerate() {
+                let pb: &Body<'tcx> = unsafe { std::mem::transmute(pb) };
+                s.push_str(",\n");
+                let mut cx = Cx { tcx, body: pb, env: TypingEnv::post_analysis(tcx, def.to_def_id()), s: &mut s, promoted: Some(pi) };
+                cx.body(*def);
+            }
         }
         s.push_str("\n],\n");
         type_facts(tcx, &mut s);
@@ -126,6 +133,7 @@ struct Cx<'a, 'tcx> {
     body: &'a Body<'tcx>,
     env: TypingEnv<'tcx>,
     s: &'a mut String,
+    promoted: Option<usize>,
 }
 
 impl<'a, 'tcx> Cx<'a, 'tcx> {
@@ -161,6 +169,32 @@ impl<'a, 'tcx> Cx<'a, 'tcx> {
         let tcx = self.tcx;
         let did = def.to_def_id();
         self.s.push_str("{\"path\":");
+        if let Some(pi) = self.promoted {
+            esc(&format!("{}::promoted[{}]", dps(tcx, did), pi), self.s);
+            let _ = write!(self.s, ",\"kind\":\"Promoted\",\"coroutine\":false,\"promoted_of\":");
+            esc(&dps(tcx, did), self.s);
+            self.s.push(',');
+            self.span(self.body.span);
+            let _ = write!(self.s, ",\"argc\":{}", self.body.arg_count);
+            self.s.push_str(",\"locals\":[");
+            for (i, (_l, decl)) in self.body.local_decls.iter_enumerated().enumerate() {
+                if i > 0 {
+                    self.s.push(',');
+                }
+                self.s.push_str("{\"ty\":");
+                esc(&tys(decl.ty), self.s);
+                self.s.push('}');
+            }
+            self.s.push_str("],\"upvars\":[],\"blocks\":[\n");
+            for (bi, (_bb, data)) in self.body.basic_blocks.iter_enumerated().enumerate() {
+                if bi > 0 {
+                    self.s.push_str(",\n");
+                }
+                self.block(data);
+            }
+            self.s.push_str("]}");
+            return;
+        }
         esc(&dps(tcx, did), self.s);
         let kind = tcx.def_kind(did);
         let _ = write!(self.s, ",\"kind\":\"{:?}\"", kind);
@@ -353,8 +387,8 @@ impl<'a, 'tcx> Cx<'a, 'tcx> {
                 if let Const::Unevaluated(u, _) = c.const_ {
                     self.s.push_str(",\"def\":");
                     esc(&dps(tcx, u.def), self.s);
-                    if u.promoted.is_some() {
-                        self.s.push_str(",\"promoted\":true");
+                    if let Some(pr) = u.promoted {
+                        let _ = write!(self.s, ",\"promoted\":{}", pr.as_usize());
                     }
                 }
                 self.s.push_str(",\"s\":");
